@@ -10,5 +10,5 @@ CONSTANTS
   EmitEdges = FALSE
 SPECIFICATION Spec
 VIEW View
-INVARIANTS TypeOK RegistryExact NoPanic BroadcasterNeverBlocks OthersUnaffected NoLeak SpawnedAreTargets
+INVARIANTS TypeOK RegistryExact NoPanic BroadcasterNeverBlocks OthersUnaffected NoLeak SpawnedAreTargets DeliveredAtQuiescence
 CHECK_DEADLOCK FALSE
